@@ -90,3 +90,38 @@ package resolvers
 //@ func mutationResolver.SetTitle
 //@   props C17
 //@   check [records-the-requested-title] err == nil ==> cache.lastTitle == text.CleanupOneLine(input.Title)
+
+// Every list resolver hands the window arguments of the request to the pagination function as they came (C20: the
+// page returned is the page asked for): after/before/first/last each go to the field of the same name.
+//@ func bugResolver.Comments
+//@   props C20
+//@   opt opaque_calls=graphql/connections.
+//@   assert at `return connections.CommentCon(comments, edger, conMaker, input)` [window-arguments-passed-through] input.After == after && input.Before == before && input.First == first && input.Last == last
+//@ func bugResolver.Operations
+//@   props C20
+//@   opt opaque_calls=graphql/connections.
+//@   assert at `return connections.OperationCon(ops, edger, conMaker, input)` [window-arguments-passed-through] input.After == after && input.Before == before && input.First == first && input.Last == last
+//@ func bugResolver.Timeline
+//@   props C20
+//@   opt opaque_calls=graphql/connections.
+//@   assert at `return connections.TimelineItemCon(timeline, edger, conMaker, inpu` [window-arguments-passed-through] input.After == after && input.Before == before && input.First == first && input.Last == last
+//@ func bugResolver.Actors
+//@   props C20
+//@   opt opaque_calls=graphql/connections.
+//@   assert at `return connections.IdentityCon(actors, edger, conMaker, input)` [window-arguments-passed-through] input.After == after && input.Before == before && input.First == first && input.Last == last
+//@ func bugResolver.Participants
+//@   props C20
+//@   opt opaque_calls=graphql/connections.
+//@   assert at `return connections.IdentityCon(participants, edger, conMaker, inpu` [window-arguments-passed-through] input.After == after && input.Before == before && input.First == first && input.Last == last
+//@ func repoResolver.AllBugs
+//@   props C20
+//@   opt opaque_calls=graphql/connections.
+//@   assert at `return connections.LazyBugCon(source, edger, conMaker, input)` [window-arguments-passed-through] input.After == after && input.Before == before && input.First == first && input.Last == last
+//@ func repoResolver.AllIdentities
+//@   props C20
+//@   opt opaque_calls=graphql/connections.
+//@   assert at `return connections.LazyIdentityCon(source, edger, conMaker, input)` [window-arguments-passed-through] input.After == after && input.Before == before && input.First == first && input.Last == last
+//@ func repoResolver.ValidLabels
+//@   props C20
+//@   opt opaque_calls=graphql/connections.
+//@   assert at `return connections.LabelCon(obj.Repo.Bugs().ValidLabels(), edger,` [window-arguments-passed-through] input.After == after && input.Before == before && input.First == first && input.Last == last
